@@ -325,3 +325,99 @@ Proof. vm_compute. split; reflexivity. Qed.
 
 Print Assumptions lazy_with_extra_eq_eager.
 Print Assumptions lazy_d64_array_free_extra_refuted.
+
+(* ================================================================== repairs of 2026-10 (C18 hunt) *)
+(* ------------------------------------------------------------------ LazyFile = LazyCall(identity) *)
+Lemma commutes_id : commutes (fun d => d).
+Proof. intros d0 others. rewrite map_id. reflexivity. Qed.
+
+Theorem lazyfile_eq_eager : forall mx b n x extra,
+  0 < b -> 0 < n -> uniform n x -> has_leaf x = true -> uniform n extra ->
+  merge_all (lazy_batches (fun d => d) mx b x extra) = Some (lazy_eval (fun d => d) x extra).
+Proof. intros. apply (lazy_with_extra_eq_eager (fun d => d) mx b n); auto using commutes_id. Qed.
+
+Definition lf_x := Node KDict (FCons 0%Z (Leaf [1; 2; 3]%Z) FNil).
+Definition lf_extra := Node KDict (FCons 1%Z (Leaf [11; 12; 13]%Z) FNil).
+(* the old eval() and the old second pass lose the extra entries that the first pass yields *)
+Theorem lazyfile_old_refuted :
+  uniform 3 lf_x /\ uniform 3 lf_extra /\ has_leaf lf_x = true /\
+  merge_all (lazy_batches (fun d => d) 1000 2 lf_x lf_extra) <> Some (lazyfile_eval_old lf_x lf_extra) /\
+  merge_all (lazyfile_batches_again_old 1000 2 lf_x lf_extra) <> merge_all (lazy_batches (fun d => d) 1000 2 lf_x lf_extra) /\
+  merge_all (lazy_batches (fun d => d) 1000 2 lf_x lf_extra) = Some (lazy_eval (fun d => d) lf_x lf_extra).
+Proof.
+  repeat split; try (cbn; auto; fail); try reflexivity; vm_compute; discriminate.
+Qed.
+
+(* ------------------------------------------------------------------ shared inner LazyCall *)
+Lemma lazy_shared_same : forall fn mx b x extra,
+  lazy_batches_shared fn mx b b x extra = lazy_batches fn mx b x extra.
+Proof. reflexivity. Qed.
+
+Theorem lazy_shared_eq_eager : forall fn mx b n x extra, commutes fn ->
+  0 < b -> 0 < n -> uniform n x -> has_leaf x = true -> uniform n extra ->
+  merge_all (lazy_batches_shared fn mx b b x extra) = Some (lazy_eval fn x extra).
+Proof. intros. rewrite lazy_shared_same. eapply lazy_with_extra_eq_eager; eauto. Qed.
+
+Definition sh_x := Node KDict (FCons 0%Z (Leaf [1; 2; 3; 4]%Z) FNil).
+Definition sh_extra := Node KDict (FCons 1%Z (Leaf [11; 12; 13; 14]%Z) FNil).
+(* inner batch size 1 (set through the other object), own batch size 2: two one-row pieces of x meet the
+   two two-row pieces of the extra: rows 3, 4 are lost and the weights no longer belong to the events *)
+Theorem lazy_shared_inner_old_refuted :
+  commutes (fun d => d) /\ uniform 4 sh_x /\ uniform 4 sh_extra /\ has_leaf sh_x = true /\
+  merge_all (lazy_batches_shared (fun d => d) 1000 1 2 sh_x sh_extra) =
+    Some (Node KDict (FCons 0%Z (Leaf [1; 2]%Z) (FCons 1%Z (Leaf [11; 12; 13; 14]%Z) FNil))) /\
+  merge_all (lazy_batches_shared (fun d => d) 1000 1 2 sh_x sh_extra) <> Some (lazy_eval (fun d => d) sh_x sh_extra).
+Proof.
+  split; [exact commutes_id|].
+  repeat split; try (cbn; auto; fail); try reflexivity; vm_compute; discriminate.
+Qed.
+
+(* ------------------------------------------------------------------ axis = -1 *)
+Lemma map_nth_seq : forall (A : Type) (l : list A) (d : A), map (fun j => nth j l d) (seq 0 (length l)) = l.
+Proof.
+  intros A l d. apply (nth_ext _ _ d d).
+  - rewrite map_length, seq_length. reflexivity.
+  - intros k Hk. rewrite map_length, seq_length in Hk.
+    rewrite (nth_indep _ d (nth (length l) l d)) by (rewrite map_length, seq_length; exact Hk).
+    rewrite (map_nth (fun j => nth j l d) (seq 0 (length l)) (length l) k).
+    rewrite seq_nth by exact Hk. reflexivity.
+Qed.
+
+Theorem split_concat_last_id : forall b n (m : mat),
+  0 < b -> 0 < n -> m <> [] -> (forall r, In r m -> length r = n) ->
+  concat_last (split_last b m) = m.
+Proof.
+  intros b n m Hb Hn Hm Hr.
+  destruct m as [|r0 m']; [congruence|]. clear Hm.
+  set (m := r0 :: m') in *.
+  assert (L0 : length r0 = n) by (apply Hr; left; reflexivity).
+  set (K := length (chunk b r0)).
+  assert (HK : 1 <= K).
+  { apply chunk_nonempty. intro E. subst r0. cbn in L0. lia. }
+  unfold concat_last, split_last. change (hd [] m) with r0. fold K.
+  assert (Hhd : length (hd [] (map (fun j => map (fun r => nth j (chunk b r) []) m) (seq 0 K))) = length m).
+  { rewrite (seq_0_S_pred K HK). cbn [map hd]. rewrite map_length. reflexivity. }
+  rewrite Hhd.
+  rewrite <- (map_nth_seq _ m []) at 2.
+  apply map_ext_in. intros i Hi. apply in_seq in Hi.
+  rewrite map_map.
+  assert (Li : length (nth i m []) = n) by (apply Hr; apply nth_In; lia).
+  rewrite (map_ext_in _ (fun j => nth j (chunk b (nth i m [])) [])).
+  - replace K with (length (chunk b (nth i m []))).
+    + rewrite map_nth_seq. apply chunk_concat. exact Hb.
+    + unfold K. apply chunk_length_dep. lia.
+  - intros j _.
+    rewrite (nth_indep _ [] ((fun r => nth j (chunk b r) []) [])) by (rewrite map_length; lia).
+    rewrite (map_nth (fun r => nth j (chunk b r) [])). reflexivity.
+Qed.
+
+(* before the repair a nested array split along the last axis was merged along the FIRST one *)
+Theorem merge_axis_old_refuted :
+  let m := [[1; 2; 3; 4]; [11; 12; 13; 14]]%Z in
+  concat_first (split_last 2 m) = [[1; 2]; [11; 12]; [3; 4]; [13; 14]]%Z /\
+  concat_first (split_last 2 m) <> m /\ concat_last (split_last 2 m) = m.
+Proof. vm_compute. repeat split; try reflexivity. discriminate. Qed.
+
+Print Assumptions lazyfile_eq_eager.
+Print Assumptions lazy_shared_inner_old_refuted.
+Print Assumptions split_concat_last_id.
